@@ -133,7 +133,7 @@ def _let(pat, scr):
             and re.fullmatch(r"(v1|Option)::Some\([$_]\)", pat):
         # opt.and_then(f) is Some exactly when opt is Some(v) and f(v) is Some
         return ("op", "&&", [_let("v1::Some($)", scr[2][0]), _let(pat, _apply(scr[2][1], _proj_some(scr[2][0])))])
-    if re.fullmatch(r"(v1|Option)::Some\([$_]\)", pat):
+    if re.fullmatch(r"(v1|Option)::Some\([$_(),]*\)", pat):
         if scr[0] == "if" and scr[3] == ("def", "v1::None"):
             return ("op", "&&", [scr[1], _let(pat, scr[2])])        # (if c { a } else { None }) is Some  ==  c && a is Some
         if scr[0] == "if" and scr[2] == ("def", "v1::None"):
